@@ -26,7 +26,7 @@ H0, H1 = bytes(range(32)), bytes(range(32, 64))
 VALS = {'nVersion': (1, 2), 'nLockTime': (0, 0x80000000), 'seq': (0xffffffff, 5), 'scriptSig': (b'', b'\x51'), 'n': (0, 3), 'hash': (H0, H1),
         'nValue': (10, 20), 'spk': (b'\x51', b'\x52\x53')}
 
-EDITS = ['nVersion', 'nLockTime', 'vin0.seq', 'vin0.scriptSig', 'vin0.prevout.n', 'vin0.prevout.hash', 'vin0.prevout=new', 'vin1=new', 'vin.append', 'vin.pop',
+EDITS = ['nVersion', 'nLockTime', 'vin0.seq', 'vin0.scriptSig', 'vin0.prevout.n', 'vin0.prevout.hash', 'vin0.prevout=new', 'vin0.prevout=null', 'vin1=new', 'vin.append', 'vin.pop',
          'vout0.nValue', 'vout0.spk', 'vout0=new', 'vout.append', 'vout.pop', 'wit=new', 'vin=newlist', 'vout=newlist', 'vin.insert0', 'vout.insert0', 'vin=tuple', 'vout=tuple']
 SNAPS = ['from_tx', 'ctor', 'block', 'txin', 'outpoint', 'txout', 'mfrom_tx', 'mtxin', 'moutpoint', 'mtxout', 'deser', 'ctor_mut']
 
@@ -127,6 +127,10 @@ class World:
                 m['vin'][0]['hash'] = toggle('hash', m['vin'][0]['hash'])
                 m['vin'][0]['n'] = toggle('n', m['vin'][0]['n'])
                 o.vin[0].prevout = CMutableOutPoint(m['vin'][0]['hash'], m['vin'][0]['n'])
+            elif e == 'vin0.prevout=null':
+                # the null outpoint (as in a coinbase template / a default-constructed input)
+                m['vin'][0]['hash'], m['vin'][0]['n'] = b'\x00' * 32, 0xffffffff
+                o.vin[0].prevout = CMutableOutPoint()
             elif e == 'vin1=new':
                 new = {'hash': toggle('hash', m['vin'][1]['hash']), 'n': 3, 'script': b'\x51', 'seq': toggle('seq', m['vin'][1]['seq'])}
                 m['vin'][1] = new
@@ -237,6 +241,18 @@ class World:
                         continue
                     raise Viol('a computation on a transaction with %s=%d (outside the wire range) returned normally' % (attr, bad), 'exception', None)
                 setattr(o, attr, keep)
+            # snapshots that cannot be made: an input whose sequence number is outside its range
+            if not isinstance(o.vin, tuple) and o.vin:
+                keep = o.vin[0].nSequence
+                o.vin[0].nSequence = 1 << 32
+                for fn in (lambda: CTransaction.from_tx(o), lambda: CTransaction(o.vin, o.vout, o.nLockTime, o.nVersion, o.wit).serialize(), lambda: CTxIn.from_txin(o.vin[0]).serialize(),
+                           lambda: CBlock(vtx=[o, o]).serialize()):
+                    try:
+                        fn()
+                    except Exception:  # noqa
+                        continue
+                    raise Viol('an immutable snapshot of a transaction whose input has nSequence 2^32 was made and serialised', 'exception', None)
+                o.vin[0].nSequence = keep
             if o.vout and not isinstance(o.vout, tuple):
                 keep = o.vout[-1].nValue
                 o.vout[-1].nValue = 1 << 64
